@@ -85,11 +85,15 @@ def discharge(ob, input_syms, timeout_ms, prefer_cvc5=False):
     # z3's budgets are RESOURCE limits (rlimit, deterministic: about 1.4 M units per CPU second here), so a verdict does
     # not depend on how busy the machine is; the wall-clock timeout is only a generous backstop.
     short = min(timeout_ms, 2500) if ob.expect == "valid" else min(timeout_ms, 1000)
+    # every obligation is solved in a z3 context of its own: the search then depends on the obligation alone, not on which
+    # obligations the same process has discharged before (sharding and scheduling cannot change a verdict)
+    own = z3.Context()
+    s = z3.Solver(ctx=own)
     s.set("rlimit", short * RLIMIT_PER_MS)
     s.set("timeout", short * WALL_FACTOR)
     for h in ob.hyps:
-        s.add(h)
-    s.add(z3.Not(ob.goal))
+        s.add(h.translate(own) if z3.is_expr(h) else h)
+    s.add(z3.Not(ob.goal).translate(own))
     r = s.check()
     if r == z3.unknown and ob.expect == "valid":
         r2 = run_cvc5(s.to_smt2(), timeout_ms)
@@ -106,11 +110,20 @@ def discharge(ob, input_syms, timeout_ms, prefer_cvc5=False):
     elif r == z3.unsat:
         res["status"] = "discharged"
     elif r == z3.sat:
-        m = s.model()
         res["status"] = "failed"
-        res["counterexample"] = {k: model_value(m, v) for k, v in input_syms.items() if v.z is not None}
         res["detail"] = "z3 found a counter-model"
-        res["solver_output"] = str(m)[:1500]
+        res["solver_output"] = str(s.model())[:1500]
+        # the model is read in the main context (the symbols of the inputs live there): solve once more there
+        sm = z3.Solver()
+        sm.set("rlimit", timeout_ms * RLIMIT_PER_MS)
+        sm.set("timeout", timeout_ms * WALL_FACTOR)
+        for h in ob.hyps:
+            sm.add(h)
+        sm.add(z3.Not(ob.goal))
+        if sm.check() == z3.sat:
+            m = sm.model()
+            res["counterexample"] = {k: model_value(m, v) for k, v in input_syms.items() if v.z is not None}
+            res["solver_output"] = str(m)[:1500]
     else:
         # second opinion: cvc5 on the same query text
         r2 = run_cvc5(s.to_smt2(), timeout_ms)
